@@ -21,6 +21,10 @@ structure LInv (s : St) (t m : Nat) : Prop where
   nh : KeysNodup s.handles
   fds : s.fds = 2 + nFile s + mfd s + s.handles.length + t
   mr : s.mountRefs = nHand s + m
+  /-- handles are numbered below `next_handle` -/
+  hk : ∀ h i, mget s.handles h = some i → h < s.nextHandle
+  /-- a directory-position record exists only for a live handle -/
+  ck : ∀ h, h ∈ s.cookies → (mget s.handles h).isSome = true
 
 /-- states that agree on everything the ledger invariant reads -/
 structure LEq (s s' : St) : Prop where
@@ -28,6 +32,8 @@ structure LEq (s s' : St) : Prop where
   handles : s'.handles = s.handles
   fds : s'.fds = s.fds
   mr : s'.mountRefs = s.mountRefs
+  cookies : s'.cookies = s.cookies
+  nextHandle : s'.nextHandle = s.nextHandle
 
 theorem LInv.of_eq {s s' : St} {t m : Nat} (h : LInv s t m) (e : LEq s s') : LInv s' t m := by
   constructor
@@ -35,6 +41,8 @@ theorem LInv.of_eq {s s' : St} {t m : Nat} (h : LInv s t m) (e : LEq s s') : LIn
   · rw [e.handles]; exact h.nh
   · unfold nFile mfd; rw [e.fds, e.data, e.mr, e.handles]; exact h.fds
   · unfold nHand; rw [e.mr, e.data]; exact h.mr
+  · rw [e.handles, e.nextHandle]; exact h.hk
+  · rw [e.handles, e.cookies]; exact h.ck
 
 theorem allocFd_ok {e : Env} {s s' : St} {t m : Nat} (h : LInv s t m) (ha : allocFd e s = (s', true)) :
     LInv s' (t + 1) m := by
@@ -42,14 +50,14 @@ theorem allocFd_ok {e : Env} {s s' : St} {t m : Nat} (h : LInv s t m) (ha : allo
   split at ha
   · cases ha
   · have := (Prod.mk.inj ha).1; subst this
-    exact ⟨h.nd, h.nh, by have := h.fds; simp only [nFile, mfd] at this ⊢; omega, h.mr⟩
+    exact ⟨h.nd, h.nh, by have := h.fds; simp only [nFile, mfd] at this ⊢; omega, h.mr, h.hk, h.ck⟩
 
 theorem allocFd_fail {e : Env} {s s' : St} {t m : Nat} (h : LInv s t m) (ha : allocFd e s = (s', false)) :
     LInv s' t m := by
   unfold allocFd at ha
   split at ha
   · have := (Prod.mk.inj ha).1; subst this
-    exact ⟨h.nd, h.nh, h.fds, h.mr⟩
+    exact ⟨h.nd, h.nh, h.fds, h.mr, h.hk, h.ck⟩
   · cases ha
 
 theorem freeFd_linv {s : St} {t m : Nat} (h : LInv s (t + 1) m) : LInv (freeFd s) t m := by
@@ -57,7 +65,7 @@ theorem freeFd_linv {s : St} {t m : Nat} (h : LInv s (t + 1) m) : LInv (freeFd s
   have h2 : mfd (freeFd s) = mfd s := rfl
   have h3 : (freeFd s).handles = s.handles := rfl
   have h4 : (freeFd s).fds = s.fds - 1 := rfl
-  refine ⟨h.nd, h.nh, ?_, h.mr⟩
+  refine ⟨h.nd, h.nh, ?_, h.mr, h.hk, h.ck⟩
   rw [h1, h2, h3, h4]; have := h.fds; omega
 
 theorem closeTemp_linv {s : St} {t m : Nat} (b : Bool) (h : LInv s (t + (if b then 1 else 0)) m) :
@@ -104,7 +112,7 @@ theorem mountGet_ok {e : Env} {s s' : St} {t m : Nat} (h : LInv s t m) (hg : mou
   split at hg
   · rename_i hpos
     have := (Prod.mk.inj hg).1; subst this
-    refine ⟨h.nd, h.nh, ?_, ?_⟩
+    refine ⟨h.nd, h.nh, ?_, ?_, h.hk, h.ck⟩
     · have := h.fds; simp only [nFile, mfd] at this ⊢
       have hp : s.mountRefs + 1 > 0 := by omega
       simp only [hpos, hp, if_true] at this ⊢; exact this
@@ -131,7 +139,8 @@ theorem mountGet_ok {e : Env} {s s' : St} {t m : Nat} (h : LInv s t m) (hg : mou
           · have := (Prod.mk.inj heq2).1; subst this; rfl
         have d1 : s1.data = s.data := data_of_tables (by have := tables_allocFd e s; rw [heq1] at this; exact this)
         have d2 : s2.data = s1.data := data_of_tables (by have := tables_allocFd e s1; rw [heq2] at this; exact this)
-        refine ⟨by show KeysNodup s2.data; exact l2.nd, by show KeysNodup s2.handles; exact l2.nh, ?_, ?_⟩
+        refine ⟨by show KeysNodup s2.data; exact l2.nd, by show KeysNodup s2.handles; exact l2.nh, ?_, ?_,
+          l2.hk, l2.ck⟩
         · have := l2.fds
           simp only [nFile, mfd, freeFd, e2, e1, hz0] at this ⊢
           simp at this ⊢
@@ -165,7 +174,7 @@ theorem mountPut_linv {s : St} {t m : Nat} (h : LInv s t (m + 1)) : LInv (mountP
   · rename_i h1
     have hm := h.mr
     have hz : nHand s = 0 ∧ m = 0 := by omega
-    refine ⟨h.nd, h.nh, ?_, ?_⟩
+    refine ⟨h.nd, h.nh, ?_, ?_, h.hk, h.ck⟩
     · have := h.fds
       simp only [nFile, mfd, freeFd, h1] at this ⊢
       simp at this ⊢
@@ -176,7 +185,7 @@ theorem mountPut_linv {s : St} {t m : Nat} (h : LInv s t (m + 1)) : LInv (mountP
       omega
   · rename_i h1
     have hm := h.mr
-    refine ⟨h.nd, h.nh, ?_, ?_⟩
+    refine ⟨h.nd, h.nh, ?_, ?_, h.hk, h.ck⟩
     · have := h.fds
       simp only [nFile, mfd] at this ⊢
       have hp : s.mountRefs > 0 := by omega
@@ -201,7 +210,7 @@ theorem delEntry_linv {s : St} {t m : Nat} (h : LInv s t m) {ino : Ino} {old : I
   have c2 := cnt_mdel (fun d : IData => d.fh.isSome) h.nd ino
   rw [hm] at c1 c2
   simp only at c1 c2
-  refine ⟨h.nd.mdel ino, h.nh, ?_, ?_⟩
+  refine ⟨h.nd.mdel ino, h.nh, ?_, ?_, h.hk, h.ck⟩
   · have := h.fds
     show s.fds = 2 + cnt _ (mdel s.data ino) + mfd s + s.handles.length + _
     simp only [nFile] at this; omega
@@ -217,7 +226,7 @@ theorem addEntry_linv {s : St} {t m : Nat} {ino : Ino} (d : IData) (hm : mget s.
   have c2 := cnt_mput (fun d : IData => d.fh.isSome) h.nd ino d
   rw [hm] at c1 c2
   simp only at c1 c2
-  refine ⟨h.nd.mput ino d, h.nh, ?_, ?_⟩
+  refine ⟨h.nd.mput ino d, h.nh, ?_, ?_, h.hk, h.ck⟩
   · have := h.fds
     show s.fds = 2 + cnt _ (mput s.data ino d) + mfd s + s.handles.length + t
     simp only [nFile] at this; omega
@@ -251,7 +260,7 @@ theorem setRefs_linv {s : St} {t m : Nat} (h : LInv s t m) {ino : Ino} {d : IDat
   have h2 : LInv (withData (withData s (mdel s.data ino)) (mput (mdel s.data ino) ino { d with refs := r })) t m :=
     addEntry_linv { d with refs := r } (by show mget (mdel s.data ino) ino = none; simp) h1
   rw [mput_mdel] at h2
-  exact h2.of_eq ⟨rfl, rfl, rfl, rfl⟩
+  exact h2.of_eq ⟨rfl, rfl, rfl, rfl, rfl, rfl⟩
 
 theorem dropIData_withData (s : St) (x : List (Ino × IData)) (d : IData) :
     dropIData (withData s x) d = withData (dropIData s d) x := by
@@ -272,7 +281,7 @@ theorem insertInode_linv {s : St} {t m : Nat} (ino : Ino) (d : IData)
   cases hm : mget s.data ino with
   | none =>
     have := addEntry_linv d hm h
-    refine this.of_eq ⟨?_, ?_, ?_, ?_⟩ <;> simp [insertInode, hm, withData]
+    refine this.of_eq ⟨?_, ?_, ?_, ?_, ?_, ?_⟩ <;> simp [insertInode, hm, withData]
   | some old =>
     -- take the old entry out, drop it, put the new one in
     have h1 := delEntry_linv h hm
@@ -282,8 +291,10 @@ theorem insertInode_linv {s : St} {t m : Nat} (ino : Ino) (d : IData)
         (mput (mdel s.data ino) ino d)) t m :=
       addEntry_linv d (by show mget (mdel s.data ino) ino = none; simp) h2
     rw [mput_mdel] at h3
-    refine h3.of_eq ⟨?_, ?_, ?_, ?_⟩
+    refine h3.of_eq ⟨?_, ?_, ?_, ?_, ?_, ?_⟩
     · simp [insertInode, hm, withData, data_of_tables (tables_dropIData s old)]
+    · simp [insertInode, hm, withData]
+    · simp [insertInode, hm, withData]
     · simp [insertInode, hm, withData]
     · simp [insertInode, hm, withData]
     · simp [insertInode, hm, withData]
@@ -295,7 +306,7 @@ theorem removeInode_linv {s : St} {t m : Nat} (h : LInv s t m) {ino : Ino} {d : 
   have h2 := dropIData_linv (s := withData s (mdel s.data ino)) d h1
   rw [dropIData_withData] at h2
   have ht := tables_dropIData s d
-  refine h2.of_eq ⟨?_, ?_, ?_, ?_⟩
+  refine h2.of_eq ⟨?_, ?_, ?_, ?_, ?_, ?_⟩
   · show (removeInode s ino d keep).data = mdel s.data ino
     simp
   · show (removeInode s ino d keep).handles = (dropIData s d).handles
@@ -308,5 +319,13 @@ theorem removeInode_linv {s : St} {t m : Nat} (h : LInv s t m) {ino : Ino} {d : 
   · show (removeInode s ino d keep).mountRefs = (dropIData s d).mountRefs
     unfold removeInode dropIData
     cases keep <;> cases d.fh <;> simp [freeFd, mountPut] <;> split <;> rfl
+  · show (removeInode s ino d keep).cookies = (dropIData s d).cookies
+    unfold removeInode
+    cases keep <;> simp only [Bool.false_eq_true, if_false, if_true] <;>
+      rw [cookies_of_tables (tables_dropIData _ d), cookies_of_tables ht]
+  · show (removeInode s ino d keep).nextHandle = (dropIData s d).nextHandle
+    unfold removeInode
+    cases keep <;> simp only [Bool.false_eq_true, if_false, if_true] <;>
+      rw [nextHandle_of_tables (tables_dropIData _ d), nextHandle_of_tables ht]
 
 end Fbr.PtRefs
